@@ -53,7 +53,7 @@ func navCfgs() []gen.LCfg {
 func navigation(c *fw.Ctx) {
 	cfgs := navCfgs()
 	layouts := []int{gen.LayoutCanonical, gen.LayoutCompact, gen.LayoutLines, gen.LayoutComments}
-	n := c.N(250, 12000)
+	n := c.N(600, 12000)
 	for i := 0; i < n; i++ {
 		id := "nav/" + itoa(i)
 		if !c.Want(80_000_000+i, id) {
